@@ -1,5 +1,6 @@
 """Per-property configuration of ./check: generators, projections (the observable the theorems
 speak about), non-triviality rules, trusted base."""
+from props_poller import proj_poll_c13
 
 COMMON_TRUSTED = [
     "Lean 4.33.0 kernel; axioms propext, Classical.choice, Quot.sound only (audited per theorem with #print axioms on every run); no native_decide, no bv_decide, no sorry, no own axioms",
@@ -133,10 +134,10 @@ NOT_APPLICABLE = {}
 
 PROPS.update({
  'C07': dict(
-    oracle='C07', also=['C07strict'],
-    gens=lambda seed, th: [['extract', seed, 2000000 if th else 60000], ['upd', seed, 20000 if th else 1500]],
-    relevant=lambda c: kind(c) == 'extract',
-    project=proj_extract(0),
+    oracle='C07', also=['C07strict', 'C13'],
+    gens=lambda seed, th: [['extract', seed, 2000000 if th else 60000], ['poll', seed, 30000 if th else 3000]],
+    relevant=lambda c: kind(c) in ('extract', 'poll'),
+    project=lambda c: proj_extract(0)(c) if kind(c) == 'extract' else proj_poll_c13(c),
     nontrivial=lambda c: 'fracNs' in c.tags and ('negOffset' in c.tags or 'posOffset' in c.tags),
     rule="chrony Tracking replies deserialised from wire bytes by chrony-candm itself: exponents -34..+2, 25-bit coefficients incl. extremes, both signs of the offset, zeros; distinct = sha1 of request; non-trivial = offset != 0 and fractional-ns exact sum (negative offsets counted separately in input_distribution: tag negOffset)",
     trusted_base=DAEMON_TB,
@@ -146,10 +147,10 @@ PROPS.update({
     level_note='Trusted: Lean kernel + standard axioms; ChronyFloat decoding and IEEE rounding are modelled; correspondence is differential testing.',
  ),
  'C10': dict(
-    oracle='C10',
-    gens=lambda seed, th: [['leapgrid'], ['extract', seed, 1000000 if th else 40000]],
-    relevant=lambda c: kind(c) == 'extract',
-    project=proj_extract(1),
+    oracle='C10', also=['C08', 'C13'],
+    gens=lambda seed, th: [['leapgrid'], ['extract', seed, 1000000 if th else 40000], ['upd', seed, 20000 if th else 1500], ['poll', seed, 20000 if th else 2000]],
+    relevant=lambda c: kind(c) in ('extract', 'upd', 'poll'),
+    project=lambda c: proj_extract(1)(c) if kind(c) == 'extract' else (proj_upd(c) if kind(c) == 'upd' else proj_poll_c13(c)),
     nontrivial=lambda c: bool(c.tags & {'nearStale', 'future', 'leap3', 'leapOther'}),
     rule="exhaustive over all 65536 leap codes x {fresh, at threshold, 1 ns past, stale, future} plus seeded reports with intervals {negative, 0, <1 s, 16, 16.125, huge} and ages at floor(8*interval) s -1/0/+1 ns and +-1 s; non-trivial = stale-threshold neighbourhood, future reference time, or a non-synchronised leap code",
     exhaustive=True,
@@ -212,7 +213,7 @@ PROPS.update({
 
 
 # ------------------------------------------------------------------ poller (C13, C12)
-from props_poller import PROPS_POLLER, C12_DAEMON, merge_c12
+from props_poller import PROPS_POLLER, C12_DAEMON, merge_c12, proj_poll_c13
 PROPS.update(PROPS_POLLER)
 
 C12_CLIENT = dict(
@@ -256,8 +257,8 @@ def sl_entry(oracle, nontrivial, rule_extra, **kw):
 PROPS.update({
  'C02': sl_entry('C02', lambda c: 'overlap' in c.tags,
     "non-trivial = the writer takes at least one step between the first and last shared access of some snapshot() call (tag overlap)",
-    gens=lambda seed, th: [['slgen', seed, 40000 if th else 1500]] + ([['slabagen']] if th else []),
-    relevant=lambda c: kind(c) in ('sl', 'slaba'),
+    gens=lambda seed, th: [['slgen', seed, 40000 if th else 1500], ['slxgen', 'all'] if th else ['slxgen']] + ([['slabagen']] if th else []),
+    relevant=lambda c: kind(c) in ('sl', 'slaba', 'slx'),
     lean_modules=['ClockBound.Properties.C02', 'ClockBound.Properties.C02Full'],
     technique='Lean 4 invariant proof over all interleavings and all stale-read choices of an operational release/acquire model (writer invariant + reader lemma), parameterised by the observed ordering annotation + schedule-level differential correspondence of the real writer/reader under a deterministic scheduler',
     level_text='Theorems C02.even_generation_is_complete (writer invariant over every history incl. crashes/restarts), accept_consistent (an accepted attempt copied exactly the record as of its first generation message, provided fewer than 32767 updates completed between its two generation reads), no_mixture / no_mixture_general (every returned record is the empty one, the pre-existing one or one passed to write) for every annotation satisfying Ann.adequate; C02.full_false proves that without the no-wrap hypothesis the statement is false of the protocol (an explicit 360 000-step execution in which 32767 updates complete inside one read attempt and the mixture 7,7,7,9,9,9,9 is returned; generation_cycle is its arithmetic heart). The annotation is observed from the real code on every run; ~1500 seeded schedules (incl. stale reads and crashes) are executed on the real code and replayed by the model token by token.',
@@ -265,8 +266,8 @@ PROPS.update({
  ),
  'C03': sl_entry('C03', lambda c: ('calls2' in c.tags and ('pubs2' in c.tags or 'catchup' in c.tags)) or 'longSkip' in c.tags or 'wrap' in c.tags,
     "plus `skip` lines: a real reader attached at generation g0 sleeps through n real publications (n up to 65535, incl. 16384, 32766, 32767 (the documented exception), 32768, across the 16-bit wrap and from an odd start) and then calls twice, sequentially. non-trivial = a reader makes >= 2 calls while >= 2 publications complete, or a quiescent fresh call checks the catch-up clause, or a skip of >= 16384 publications / across the wrap (tags calls2+pubs2, catchup, longSkip, wrap)",
-    gens=lambda seed, th: [['slgen', seed, 40000 if th else 1500], ['skipgen', 'all'] if th else ['skipgen']],
-    relevant=lambda c: kind(c) in ('sl', 'skip'),
+    gens=lambda seed, th: [['slgen', seed, 40000 if th else 1500], ['skipgen', 'all'] if th else ['skipgen'], ['crashgrid']],
+    relevant=lambda c: kind(c) in ('sl', 'skip', 'crashpt'),
     lean_modules=['ClockBound.Properties.C03', 'ClockBound.Properties.C03b'],
     technique='Lean 4 proof: coherence-based monotonicity invariant over all executions + catch-up theorem for fresh reads on a quiescent log + generation potential function for the 32767 exception; same schedule-level correspondence as C02',
     level_text='Theorems C03.accepted_monotone / cache_is_accepted_publication (the generation message behind a reader\'s cached snapshot never moves backwards), catches_up (no update in flight + fresh reads + cached generation differs => the call returns the latest completed publication), same_generation_serves_cache and equal_generation_same_message (the documented exception needs >= 32767 completed updates).',
